@@ -347,6 +347,7 @@ def provenance_check(build):
     for l in build["db"]:
         if l.startswith("dbepoch "):
             ep = int(l.split(" ")[1])
+    nodeps = any(l.startswith("deps-unavailable") for l in build["other"])     # the driver could not parse the engine's graph dump
     completed = {}
     for l in build["events"]:
         t = l.split(" ")
@@ -364,7 +365,7 @@ def provenance_check(build):
             elif completed[k] != t[2]:
                 bad.append(("provenance", "row of key %d holds %s, its task completed with %s" % (k, t[2], completed[k])))
             deps = [int(x.split(":")[0]) if not x.startswith("?") else -1 for x in t[6:]]
-            if build["deps"].get(k, []) != deps:
+            if not nodeps and build["deps"].get(k, []) != deps:
                 bad.append(("provenance", "row of key %d stores dependencies %s, the engine recorded %s for that execution" % (k, deps, build["deps"].get(k, []))))
     for k in completed:
         if k not in stored or int(stored[k][5]) != ep:
@@ -405,7 +406,7 @@ def ops_of_build(prev_lines, build):
 class Target:
     """history `hist`, the bi-th build of it is the one that gets killed"""
 
-    def __init__(self, chk, drv, model, hist, bi, name, schema=1):
+    def __init__(self, chk, drv, model, hist, bi, name):
         self.chk, self.drv, self.model, self.hist, self.bi, self.name = chk, drv, model, hist, bi, name
         self.d = os.path.join(RUN, name)
         shutil.rmtree(self.d, ignore_errors=True)
@@ -534,7 +535,7 @@ class Target:
         """kill before the N-th database call; returns 'pre' | 'post' | 'other' | None (no verdict)"""
         chk, d = self.chk, self.d
         restore_db(d, "pre")
-        rc, out, err, sp, tp = enginelib.run_impl(self.drv, self.crash_lines, d, keepdb=True, name="crash", env=shim_env(N, nosync=True))
+        rc, out, err, sp, tp = enginelib.run_impl(self.drv, self.crash_lines, d, keepdb=True, name="crash", env=shim_env(N))
         rp = dict(self.replay_base(), kill_before_call=N, call=self.call_desc(N), total_calls=self.total)
         if N <= self.total and rc != 77:
             chk.violation("kill-not-delivered", "the shim did not kill the process before call %d of %d (rc %d): the call sequence is not deterministic" % (N, self.total, rc),
@@ -587,7 +588,7 @@ class Target:
         # (iii) the next process: attach, then the history goes on
         cont = continuation_lines(cont_rng, self.hist, self.bi)
         lines = ["db 2"] + carry(self.hist[:self.pos + 1]) + with_fresh(cont)
-        rc2, out2, err2, sp2, tp2 = enginelib.run_impl(self.drv, lines, d, keepdb=True, name="continue", env=shim_env(0, nosync=True))
+        rc2, out2, err2, sp2, tp2 = enginelib.run_impl(self.drv, lines, d, keepdb=True, name="continue")
         rp2 = dict(rp, state_after_kill=verdict, continuation_process=lines)
         if rc2 != 0:
             chk.violation("db-unusable", "the process continuing after a kill before call %d (%s) failed with rc %d" % (N, self.call_desc(N), rc2), dict(rp2, stderr=err2[-800:], stdout_tail=out2[-10:]))
@@ -656,7 +657,7 @@ class WholeTarget:
 
     def kill(self, N, cont_rng):
         chk, d = self.chk, self.d
-        rc, out, err, sp, tp = enginelib.run_impl(self.drv, self.lines, d, name="crash", env=shim_env(N, nosync=True))
+        rc, out, err, sp, tp = enginelib.run_impl(self.drv, self.lines, d, name="crash", env=shim_env(N))
         rp = dict(self.replay_base(), kill_before_call=N, call=self.call_desc(N), total_calls=self.total)
         if (N <= self.total and rc != 77) or (N > self.total and rc != 0):
             chk.violation("kill-not-delivered", "the shim did not kill the process before call %d of %d (rc %d)" % (N, self.total, rc), dict(rp, stderr=err[-800:]),
@@ -694,7 +695,7 @@ class WholeTarget:
             cont.append("set %d %d" % (k, cont_rng.randint(0, 5)))
         cont.append("build %s" % roots[-1])
         lines = ["db 2"] + carry(self.hist) + with_fresh(cont)
-        rc2, out2, err2, sp2, tp2 = enginelib.run_impl(self.drv, lines, d, keepdb=True, name="continue", env=shim_env(0, nosync=True))
+        rc2, out2, err2, sp2, tp2 = enginelib.run_impl(self.drv, lines, d, keepdb=True, name="continue")
         rp2 = dict(rp, builds_visible_after_kill=j, continuation_process=lines)
         if rc2 != 0:
             chk.violation("db-unusable", "the process continuing after a kill before call %d (%s) failed with rc %d" % (N, self.call_desc(N), rc2), dict(rp2, stderr=err2[-800:], stdout_tail=out2[-10:]))
@@ -738,7 +739,12 @@ def sync_protocol(calls):
 # ------------------------------------------------------------------ entry points
 
 def setup(chk):
-    drv = vlib.build_drivers(["engine_driver"])["engine_driver"]
+    shared = vlib.build_drivers(["engine_driver"])["engine_driver"]
+    # a private copy: other checks running at the same time may relink the shared binary while thousands of processes are started here
+    os.makedirs(RUN, exist_ok=True)
+    drv = os.path.join(RUN, "engine_driver")
+    with vlib.Lock("drv-hooks"):
+        shutil.copy2(shared, drv)
     build_shim()
     model = vlib.Interactive(vlib.model_bin(AREA))
     return drv, model
@@ -757,7 +763,7 @@ def run(chk):
         x = r.random()
         return "sync" if x < 0.5 else ("defer:%d" % r.randint(1, 99) if x < 0.8 else "mixed:%d" % r.randint(1, 99))
 
-    n_small = chk.n(7, 40)
+    n_small = chk.n(7, 30)
     n_big = chk.n(1, 4)
     budget = chk.n(900, 10**9)          # kill points in the quick tier
     hists = [("big%d" % i, gen_hist(rng, big=True, sched=sched if i % 2 else None)) for i in range(n_big)]
@@ -825,7 +831,7 @@ def run(chk):
                             model_trace_ops=len(t.trace_i), pre=t.pre["lines"][-3:], post=t.post["lines"][-3:]))
     # the same for whole histories run in one process
     wstats = dict(histories=0, kill_points=0, total_calls=0)
-    wh = hists[:chk.n(3, len(hists))]
+    wh = hists[:chk.n(3, 16)]
     wshare = chk.n(40, 10**9)
     for name, hist in wh:
         t = WholeTarget(chk, drv, model, hist, name + "_whole")
